@@ -372,7 +372,13 @@ func (c *Ctx) zeroOf(t types.Type) string {
 		}
 		return c.mkStruct(t, fs)
 	case *types.Array:
-		return fmt.Sprintf("((as const %s) %s)", c.sortOf(t), c.zeroOf(u.Elem()))
+		z := c.zeroOf(u.Elem())
+		// cvc5 accepts only literal VALUES in constant arrays: spell the nil interface / empty string out
+		z = strings.ReplaceAll(z, "nilval", "(mkval 0 0 (_ +zero 11 53) (mkstr ((as const (Array Int Int)) 0) 0 0) false)")
+		z = strings.ReplaceAll(z, "emptystr", "(mkstr ((as const (Array Int Int)) 0) 0 0)")
+		z = strings.ReplaceAll(z, "nilslice", "(mkslice 0 0 0 0)")
+		z = strings.ReplaceAll(z, "fpzero", "(_ +zero 11 53)")
+		return fmt.Sprintf("((as const %s) %s)", c.sortOf(t), z)
 	case *types.Pointer, *types.Map, *types.Chan, *types.Signature:
 		return "0"
 	}
@@ -492,10 +498,28 @@ type State struct {
 	dead   bool
 	quiet  bool // inside a quantifier body: no assumptions or definitions may be added
 	defers []deferRec
+	ghost  map[string]string // ghost state of the call log (lgN, lgK, ..., cnt:<kind>); nil when the log is off
+}
+
+// ghostSort gives the SMT sort of a ghost-state component.
+func ghostSort(k string) string {
+	switch k {
+	case "lgK", "lgF", "lgI":
+		return "(Array Int Int)"
+	case "lgR", "lgE", "lgA":
+		return "(Array Int " + sortVal + ")"
+	}
+	return "Int"
 }
 
 func (s *State) fork() *State {
 	n := &State{c: s.c, alloc: s.alloc, dead: s.dead, epoch: s.epoch, quiet: s.quiet, defers: s.defers}
+	if s.ghost != nil {
+		n.ghost = make(map[string]string, len(s.ghost))
+		for k, v := range s.ghost {
+			n.ghost[k] = v
+		}
+	}
 	n.items = make([]Item, len(s.items), len(s.items)+16)
 	copy(n.items, s.items)
 	n.env = make(map[types.Object]Value, len(s.env))
@@ -717,5 +741,19 @@ func mergeStates(base int, sts []*State) *State {
 		}
 	}
 	m.alloc, _ = pick("Int", func(s *State) (string, bool) { return s.alloc, true })
+	if live[0].ghost != nil {
+		m.ghost = map[string]string{}
+		var gk []string
+		for k := range live[0].ghost {
+			gk = append(gk, k)
+		}
+		sort.Strings(gk)
+		for _, k := range gk {
+			k := k
+			if t, ok := pick(ghostSort(k), func(s *State) (string, bool) { g, ok := s.ghost[k]; return g, ok }); ok {
+				m.ghost[k] = t
+			}
+		}
+	}
 	return m
 }
